@@ -126,8 +126,10 @@ Fixpoint gen_writes (pos : Z) (lens : list Z) : list (list Z) :=
 
 Definition psize_of (h : handcase) : nat -> Z := fun k => nth k (h_psizes h) (h_pdefault h).
 
+(** Enough for the run that was observed: every Read call and every round of the Write loop costs a
+    bounded number of transitions (too little fuel shows up as a non-terminal state = mismatch). *)
 Definition hand_fuel (h : handcase) : nat :=
-  Z.to_nat (40 * (fold_left Z.add (h_writes h) 0 + lenZ (h_writes h) + 4)).
+  Z.to_nat (16 * (lenZ (oh_rets h) + lenZ (h_writes h) + fold_left Z.add (h_writes h) 0 / Z.max 1 (h_cap h) + 8)).
 
 Definition hand_model (h : handcase) : hstate :=
   hrun_greedy (psize_of h) (hand_fuel h) (hinit (h_cap h) (gen_writes 0 (h_writes h))).
